@@ -14,7 +14,8 @@ EXPLANATION = (
     "the matching field; decrements update no max; tally_op adds the constant 1 to count and its size parameter to "
     "size; clear() overwrites the whole struct with new(), which zero-initialises every field (ADT-enumerated). "
     "R10.4: the tally is a thread_local and only reached through the current thread's pointer. This decides which "
-    "operands feed which field on every path, not the arithmetic itself.")
+    "operands feed which field on every path, not the arithmetic itself."
+    " R10.5 clear is unconditional and total.")
 NOT_DECIDED = ["numerical exactness of sums/maxima over arbitrary operation sequences (value computation)",
                "overflow behaviour beyond 2^63 operations"]
 
